@@ -243,6 +243,9 @@ func cmdCheck(writeBaseline bool, argv []string) int {
 		for _, c := range cf.Funcs {
 			// a trusted summary may still carry gates: they are verified on the
 			// body (the postconditions stay assumed)
+			if c.merged {
+				continue // verified once, through the block its clauses were merged into
+			}
 			if (c.Trusted && !reachTagged(c, prop)) || !clauseTagged(c, prop) {
 				continue
 			}
@@ -337,7 +340,7 @@ func cmdCheck(writeBaseline bool, argv []string) int {
 		}
 		toSolve = nil
 		for _, o := range obls {
-			if want[o.ID] || missingFK[o.Func+"#"+o.Kind] || ((o.Kind == "reach" || o.Kind == "send") && gateStem[idStem(o.ID)]) {
+			if want[o.ID] || missingFK[o.Func+"#"+o.Kind] || ((o.Kind == "reach" || o.Kind == "send" || o.Kind == "inv-pres" || o.Kind == "inv-entry" || o.Kind == "cb-pres" || o.Kind == "cb-entry") && gateStem[idStem(o.ID)]) {
 				toSolve = append(toSolve, o)
 			}
 		}
@@ -535,7 +538,7 @@ func cmdCheck(writeBaseline bool, argv []string) int {
 		}
 		if len(missingByFuncKind[fk]) > 0 {
 			viols = append(viols, viol{o, o.ID, o.Status + " (replaces baseline obligation " + missingByFuncKind[fk][0] + ")"})
-		} else if (o.Kind == "reach" || o.Kind == "send") && inBL[idStem(o.ID)] {
+		} else if (o.Kind == "reach" || o.Kind == "send" || o.Kind == "inv-pres" || o.Kind == "inv-entry" || o.Kind == "cb-pres" || o.Kind == "cb-entry") && inBL[idStem(o.ID)] {
 			// a gate clause that is claimed applies to every statement it matches:
 			// a new matching statement is a new instance of the claimed clause
 			viols = append(viols, viol{o, o.ID, o.Status + " (new statement matched by the claimed gate " + idStem(o.ID) + ")"})
